@@ -663,3 +663,6 @@ M('seed7-C12-always-localhost', ['C12'], CLI, '''            addr, port = (outpu
 
 M('refresh-D43-shape-zero-sentinel', ['C13'], RL, "            old_timestamp, old_path, old_size = -1, 0, 0  # nothing seen yet: below every timestamp a file can have, 0 is one of them", "            old_timestamp = old_path = old_size = 0", ['C13.R11'])
 M('seed7-C13-seek-end-listed-size', ['C13', 'C14'], RL, "                        read_file.seek(0, 2)\n\n                        self.read_idx -= 1", "                        read_file.seek(logfiles[-1].size)\n\n                        self.read_idx -= 1", ['C13.R10', 'C14.R10'])
+
+M('size-D44-shape-zero-accepted-util', ['C17'], UT, "                        if not xform.width or not xform.height:  # OpenCV refuses an empty size for every image\n                            raise ValueError(f'invalid size {args!r}, width and height must be at least 1')\n", "", ['C17.R6'])
+M('size-D44-shape-zero-accepted-video', ['C17'], VI, "    if not int(m.group(1)) or not int(m.group(3)):  # OpenCV refuses an empty size for every image\n        raise ValueError(f'invalid size {s!r}, width and height must be at least 1')\n", "", ['C17.R6'])
